@@ -244,8 +244,13 @@ def replay_cases(draw, scns):
         if choice == "none":
             continue
         source = draw(st.sampled_from(names[ident]))
-        previous.append({"name": source, "status": choice, "time_elapsed": draw(st.sampled_from([0.2, 1, 5]))})
-    run = {"test_timeout": 10, "replay": "previous_job", "max_concurrent_tries": 1}
+        previous.append({"name": source, "status": choice, "time_elapsed": draw(st.sampled_from([0.2, 1, 5])),
+                         "job": draw(st.integers(0, 1))})
+    two_jobs = draw(st.sampled_from([False, False, True]))
+    if not two_jobs:
+        for entry in previous:
+            entry["job"] = 0
+    run = {"test_timeout": 10, "replay": "previous_job other_job" if two_jobs else "previous_job", "max_concurrent_tries": 1}
     if draw(st.booleans()):
         run["rerun_status"] = draw(st.sampled_from(["fail", "error", "pass", "warn", "skip"]))
     if draw(st.integers(0, 2)) == 0:
@@ -258,10 +263,13 @@ def replay_cases(draw, scns):
 def run_sim(case, scratch):
     """Run an E1 case, writing the replayed job's results.json first."""
     if case.get("previous") is not None:
-        job_dir = os.path.join(scratch, "previous_job")
-        os.makedirs(job_dir, exist_ok=True)
-        with open(os.path.join(job_dir, "results.json"), "w") as handle:
-            json.dump({"tests": case["previous"]}, handle)
+        for index, job in enumerate(str(case["run"].get("replay", "previous_job")).split()):
+            job_dir = os.path.join(scratch, job)
+            os.makedirs(job_dir, exist_ok=True)
+            tests = [{k: v for k, v in entry.items() if k != "job"} for entry in case["previous"]
+                     if entry.get("job", 0) == index]
+            with open(os.path.join(job_dir, "results.json"), "w") as handle:
+                json.dump({"tests": tests}, handle)
     return e1.run_case(case, scratch)
 
 
@@ -375,8 +383,14 @@ def judge(sim, case):
     if replay:
         acceptable_default = ["fail", "error", "warn"]
         rerun_set = rerun or acceptable_default
+        # previous results as given in the replayed jobs' files (not as the code attached them)
+        given = {}
+        name_to_ident = {name: ident for ident, names in (sim.info.get("names") or {}).items() for name in names}
+        for entry in case.get("previous") or []:
+            if entry["name"] in name_to_ident:
+                given.setdefault(name_to_ident[entry["name"]], []).append(entry)
         for ident, group in sorted(by_ident.items()):
-            previous = [r for n in group for r in n.results if "logdir" not in r]
+            previous = given.get(ident, [])
             executions = [s for s in starts if s["ident"] == ident]
             sets = [r for n in group[:1] for r in simmod.state_requests(n.params, "set") if r["state"] not in e1.ROOT_STATES]
             if any(n.is_object_root() for n in group):
